@@ -17,7 +17,7 @@ def parseDamage : String → Option Damage
   | "twoPackages" => some .twoPackages | "typeMissing" => some .typeMissing | "wrongKind" => some .wrongKind
   | "notInFile" => some .notInFile | "restResults" => some .restResults | "exportedGetFlag" => some .exportedGetFlag
   | "manualBadParam" => some .manualBadParam | "manualTwice" => some .manualTwice | "formatFail" => some .formatFail
-  | "restParseFail" => some .restParseFail | "restAliasDup" => some .restAliasDup
+  | "restParseFail" => some .restParseFail | "restAliasDup" => some .restAliasDup | "outputBlocked" => some .outputBlocked
   | _ => none
 
 def c18yn (b : Bool) : String := if b then "yes" else "no"
